@@ -2,33 +2,38 @@
 
 package validate
 
-import "hash/fnv"
 
-func verifHash(b []byte) uint64 {
-	hh := fnv.New64a()
-	hh.Write(b)
-	return hh.Sum64()
+// verifC19Differ: a and b are different names.
+func verifC19Differ(a, b []byte) bool {
+	if len(a) != len(b) {
+		return true
+	}
+	d := false
+	for i := range a {
+		d = verifOr(d, a[i] != b[i])
+	}
+	return d
 }
 
-// VerifC19Step: one Ordered(key, ts) call from an arbitrary map state (one-step induction over
-// histories): accepted <=> ts > last accepted for hash(key) (absent = 0); stores ts exactly then;
-// leaves other entries alone; the shared hash object is left reset.
+// VerifC19Step: one Ordered(key, ts) call from an arbitrary reachable register state (one-step induction over
+// histories; the state is built through the API, so the harness does not depend on how the registers are
+// represented): accepted <=> ts > last accepted for that name (absent = 0); a rejected point leaves the register
+// alone; other names are untouched: a different name (1..3 bytes) has a register of its own.
 func VerifC19Step() {
-	// arbitrary pre-state: up to two entries with symbolic keys (one of them possibly the key's own hash)
 	key := verifBytes("key", 1+verifChoice("keylen", 3))
 	other := verifBytes("other", 1+verifChoice("otherlen", 3))
-	k := verifHash(key)
-	ko := verifHash(other)
+	verifAssume(verifC19Differ(key, other))
 	hasOwn := verifBool("has-own")
 	old := verifUint32("old")
 	oldOther := verifUint32("oldOther")
-	verifAssume(ko != k)
+	verifAssume(oldOther > 0)
 	if hasOwn {
-		m[k] = old
+		verifAssume(old > 0)
+		verifAssert(Ordered(key, old) == nil, "first-point-of-a-name-accepted")
 	} else {
 		old = 0
 	}
-	m[ko] = oldOther
+	verifAssert(Ordered(other, oldOther) == nil, "different-name-has-its-own-register")
 	ts := verifUint32("ts")
 	mark := verifTraceMark()
 	err := Ordered(key, ts)
@@ -37,16 +42,15 @@ func VerifC19Step() {
 		// read lock, no second acquisition between the comparison and the store)
 		verifAssert(verifCalledSince(mark, ").Lock") == 1 && verifCalledSince(mark, ").RLock") == 0, "structural/one-exclusive-lock-around-compare-and-set")
 	}
+	cur := old
 	if ts > old {
 		verifAssert(err == nil, "newer-point-accepted")
-		verifAssert(m[k] == ts, "accepted-timestamp-stored")
+		cur = ts
 	} else {
 		verifAssert(err != nil, "not-newer-point-rejected")
-		verifAssert(m[k] == old, "rejected-leaves-register")
 	}
-	verifAssert(m[ko] == oldOther, "other-names-untouched")
-	// no state leaks from this call into the next one (e.g. a shared hasher that was not reset): a second call
-	// for the other name still sees exactly its own register
+	// no state leaks from this call into the next one (e.g. a shared hasher that was not reset), and the other
+	// name still sees exactly its own register
 	ts2 := verifUint32("ts2")
 	err2 := Ordered(other, ts2)
 	if ts2 > oldOther {
@@ -54,7 +58,11 @@ func VerifC19Step() {
 	} else {
 		verifAssert(err2 != nil, "next-call-other-name-not-newer-rejected")
 	}
-	// (the lock is released on every path: the second call above would deadlock otherwise)
+	// the register of the name holds exactly the newest accepted timestamp (a rejected point left it alone)
+	ts3 := verifUint32("ts3")
+	err3 := Ordered(key, ts3)
+	verifAssert((err3 == nil) == (ts3 > cur), "register-holds-newest-accepted-timestamp")
+	// (the lock is released on every path: the later calls would deadlock otherwise)
 	verifCover("end")
 }
 
@@ -82,21 +90,23 @@ func VerifC19Seq() {
 	verifCover("end")
 }
 
-// VerifC19Injective: FNV-1a-64 does not collide on distinct names of up to 3 bytes (so distinct
-// short names never share a register).
+// VerifC19Injective: distinct names of 1..3 bytes never share a register, observed through the API alone: after
+// name a was accepted at t1, a point of a different name b with 0 < t2 <= t1 is still accepted (it is the
+// first point of b), and a then still rejects t1.
 func VerifC19Injective() {
-	a := verifBytes("a", 1+verifChoice("alen", 3))
-	b := verifBytes("b", 1+verifChoice("blen", 3))
-	differ := len(a) != len(b)
-	if !differ {
-		for i := range a {
-			if a[i] != b[i] {
-				differ = true
-			}
-		}
+	var a, b []byte
+	if n := verifParamInt("len", 0); n > 0 { // both names of exactly n bytes
+		a, b = verifBytes("a", n), verifBytes("b", n)
+	} else {
+		a = verifBytes("a", 1+verifChoice("alen", 3))
+		b = verifBytes("b", 1+verifChoice("blen", 3))
 	}
-	verifAssume(differ)
-	verifAssert(verifHash(a) != verifHash(b), "fnv64a-injective-on-short-names")
+	verifAssume(verifC19Differ(a, b))
+	t1, t2 := verifUint32("t1"), verifUint32("t2")
+	verifAssume(verifAnd(t2 > 0, t2 <= t1))
+	verifAssert(Ordered(a, t1) == nil, "first-point-of-a-name-accepted")
+	verifAssert(Ordered(b, t2) == nil, "distinct-short-names-never-share-a-register")
+	verifAssert(Ordered(a, t1) != nil, "register-of-first-name-unaffected")
 	verifCover("end")
 }
 
